@@ -100,6 +100,18 @@ def units(rng, tier):
         a, k = rng.choice([("rnp", 5), ("rnp", 5), ("rnp", 3), ("snp", 4), ("snp", 5)])
         vals = [rng.randint(0 if rng.random() < 0.15 else 1, rng.choice([7, 7, 10, 12])) for _ in range(rng.randint(8, 9))]
         us.append(part_unit(a, k, vals, rng, fmt=rng.choice(["list", "list", "dict_str"]), cmp="sums", family="recursive-many-bins"))
+    # positive items that cancel EXACTLY in the differencing methods (k copies of each value: the merged tuple reaches difference 0 early)
+    # next to two or more zero-valued items, whose own tuples have all sums 0 without being empty - "a bin with sum 0 is empty" is false here
+    for _ in range(150 if tier == "quick" else 2000):
+        k = rng.choice([2, 2, 3, 3, 4])
+        base = [rng.randint(1, 15) for _ in range(rng.randint(1, 3))]
+        vals = [x for x in base for _c in range(k)] + [0] * rng.randint(2, 4)
+        if rng.random() < 0.3:
+            vals += [rng.randint(1, 15)]
+        rng.shuffle(vals)
+        a = rng.choice(["kk", "kk", "snp", "rnp", "ckk", "greedy", "cg"])
+        us.append(part_unit(a, k, vals[:9] if a in ("snp", "rnp", "ckk", "cg") else vals, rng, fmt=rng.choice(["list", "dict_str", "names_valueof"]),
+                            cmp="sums" if a in ("kk", "snp", "rnp", "ckk") else "bins", family="cancelling-positives+zeros"))
     # large instances for the polynomial heuristics: many items, many bins (around 16 / 32 / 64, where an implementation might switch strategy)
     for _ in range(8 if tier == "quick" else 80):
         nn = rng.choice([40, 64, 65, 100, 129, 200])
